@@ -231,7 +231,15 @@ static int modeTimers(const std::string& xml) {
 	std::string stopwhen = arg("stopwhen", "");
 	while (st != USCXML_FINISHED && usec() < deadline) {
 		if (gquiet) { uint64_t q = gAct.load(); if (q != lastSeq || feeding.load()) { lastSeq = q; lastActivity = usec(); } }
-		if (!stopwhen.empty() && waitFlag(stopwhen, 0)) { rec("STOP", stopwhen); break; }
+		if (!stopwhen.empty() && waitFlag(stopwhen, 0)) {
+			rec("STOP", stopwhen);
+			if (arg("atstop", "") == "reset") {
+				// reset() instead of destruction while the timer thread sits in a delivery; the session then starts over
+				rec("RESET", "begin"); ip.reset(); rec("RESET", "end");
+				stopwhen.clear(); lastActivity = usec(); st = USCXML_UNDEF; continue;
+			}
+			break;
+		}
 		st = ip.step(stopwhen.empty() ? (size_t)argl("block", 20) : 2);   // block=N: a stepper that really sleeps in step() (events must wake it)
 		if (st != USCXML_IDLE) { lastActivity = usec(); rec("R", std::to_string((int)st)); }
 		else if (!sent) { Event e(ext, Event::EXTERNAL); rec("SEND", ext); ip.receive(e); sent = true; lastActivity = usec(); }
